@@ -1,4 +1,5 @@
 from .token import Token
+from ...errors import ExpectedTokenError
 
 
 class Variable(Token):
@@ -9,7 +10,5 @@ class Variable(Token):
 
     def set_value(self, value: str):
         if value not in self.vars:
-            raise ValueError(
-                f"String {value} was recognized as a variable, but was not one."
-            )
+            raise ExpectedTokenError(self.stack, "A valid value was expected")
         self.value = self.vars.get(value)
